@@ -140,3 +140,75 @@ Proof.
     right. right. congruence. }
   lia.
 Qed.
+
+(** ** Round 4: three more facts about sorted views *)
+From Coq Require Import Permutation.
+
+(** (i) two strictly sorted lists with the same members are equal *)
+Lemma ssorted_ext {A} (R : A -> A -> Prop) (l1 l2 : list A) :
+  (forall x, ~ R x x) -> (forall x y, R x y -> R y x -> False) ->
+  StronglySorted R l1 -> StronglySorted R l2 -> (forall x, In x l1 <-> In x l2) -> l1 = l2.
+Proof.
+  intros Hirr Hasym. revert l2. induction l1 as [|a l1 IH]; intros l2 Hs1 Hs2 Hm.
+  - destruct l2 as [|b l2]; [reflexivity|]. exfalso. apply (proj2 (Hm b)). left. reflexivity.
+  - destruct l2 as [|b l2]; [exfalso; apply (proj1 (Hm a)); left; reflexivity|].
+    inversion Hs1 as [|? ? Hs1' Hall1]; subst. inversion Hs2 as [|? ? Hs2' Hall2]; subst.
+    rewrite Forall_forall in Hall1, Hall2.
+    assert (Hab : a = b).
+    { destruct (proj1 (Hm a) (or_introl eq_refl)) as [Hba|Hin2]; [symmetry; exact Hba|].
+      destruct (proj2 (Hm b) (or_introl eq_refl)) as [Hab|Hin1]; [exact Hab|].
+      exfalso. exact (Hasym _ _ (Hall1 b Hin1) (Hall2 a Hin2)). }
+    subst b. f_equal. apply IH; [exact Hs1'|exact Hs2'|].
+    intros x. split; intros Hx.
+    + destruct (proj1 (Hm x) (or_intror Hx)) as [Heq|Hx2]; [|exact Hx2]. subst x. exfalso. exact (Hirr _ (Hall1 a Hx)).
+    + destruct (proj2 (Hm x) (or_intror Hx)) as [Heq|Hx1]; [|exact Hx1]. subst x. exfalso. exact (Hirr _ (Hall2 a Hx)).
+Qed.
+
+Section SortMore.
+  Context {K V : Type} `{EqDec K}.
+  Variable ltb : K -> K -> bool.
+  Hypothesis ltb_irrefl : forall k, ltb k k = false.
+  Hypothesis ltb_asym : forall a b, ltb a b = true -> ltb b a = false.
+  Hypothesis ltb_trans : forall a b c, ltb a b = true -> ltb b c = true -> ltb a c = true.
+
+  Lemma sorted_ext (l1 l2 : list (K * V)) :
+    sorted ltb l1 -> sorted ltb l2 -> (forall x, In x l1 <-> In x l2) -> l1 = l2.
+  Proof.
+    apply ssorted_ext.
+    - intros x Hx. unfold klt in Hx. rewrite ltb_irrefl in Hx. discriminate.
+    - intros x y Hxy Hyx. unfold klt in *. rewrite (ltb_asym _ _ Hxy) in Hyx. discriminate.
+  Qed.
+
+  (** (ii) the sorted view of a duplicate-free map is a permutation of it *)
+  Lemma osort_perm (m : list (K * V)) : total_on ltb (map fst m) -> NoDup (map fst m) -> Permutation (osort ltb m) m.
+  Proof.
+    intros Htot Hnd. apply NoDup_Permutation.
+    - apply (NoDup_map_inv fst). apply (sorted_keys_NoDup ltb ltb_irrefl). apply osort_sorted; assumption.
+    - apply (NoDup_map_inv fst). exact Hnd.
+    - intros x. apply In_osort. exact Hnd.
+  Qed.
+End SortMore.
+
+Lemma zsum_perm l l' : Permutation l l' -> zsum l = zsum l'.
+Proof. induction 1; simpl; lia. Qed.
+
+Lemma filter_perm {A} (p : A -> bool) l l' : Permutation l l' -> Permutation (filter p l) (filter p l').
+Proof.
+  induction 1; simpl.
+  - constructor.
+  - destruct (p x); [constructor|]; assumption.
+  - destruct (p x), (p y); try apply perm_swap; try apply Permutation_refl.
+  - eapply Permutation_trans; eassumption.
+Qed.
+
+(** (iii) appending sorted pieces whose elements are in order gives a sorted list *)
+Lemma ssorted_app {A} (R : A -> A -> Prop) (a b : list A) :
+  StronglySorted R a -> StronglySorted R b -> (forall x y, In x a -> In y b -> R x y) -> StronglySorted R (a ++ b).
+Proof.
+  induction a as [|x a IH]; simpl; intros Ha Hb Hab; [exact Hb|].
+  inversion Ha as [|? ? Ha' Hall]; subst. constructor.
+  - apply IH; [exact Ha'|exact Hb|]. intros u v Hu Hv. apply Hab; [right; exact Hu|exact Hv].
+  - apply Forall_forall. intros y Hy. apply in_app_or in Hy. destruct Hy as [Hy|Hy].
+    + rewrite Forall_forall in Hall. apply Hall. exact Hy.
+    + apply Hab; [left; reflexivity|exact Hy].
+Qed.
